@@ -674,6 +674,9 @@ Qed.
 Fixpoint concat_n {A} (n : nat) (l : list A) : list A :=
   match n with O => [] | S k => l ++ concat_n k l end.
 
+Lemma au_mem_cons p x l : au_mem p (x :: l) = (p =? x) || au_mem p l.
+Proof. reflexivity. Qed.
+
 Lemma parts_fold fs : forall parts tr ks hr ms,
   let '(tr', ks', hr', ms') := fold_left (parts_step fs) parts (tr, ks, hr, ms) in
   tr' = tr || au_mem au_H parts
@@ -683,31 +686,36 @@ Lemma parts_fold fs : forall parts tr ks hr ms,
 Proof.
   induction parts as [|p parts IH]; intros tr ks hr ms.
   - cbn. rewrite !orb_false_r, app_nil_r. auto.
-  - cbn [fold_left]. unfold parts_step at 2. unfold au_mem. cbn [existsb au_count].
+  - cbn [fold_left]. rewrite !au_mem_cons. cbn [au_count].
+    unfold parts_step at 2.
     destruct (p =? au_H) eqn:EH.
-    + apply N.eqb_eq in EH. subst p.
-      specialize (IH true ks hr ms). destruct (fold_left (parts_step fs) parts (true, ks, hr, ms)) as [[[a b] d] e].
-      destruct IH as [-> [-> [-> ->]]]. unfold au_H, au_K. cbn. rewrite !orb_false_r. repeat split.
-      rewrite orb_true_r. reflexivity.
-    + destruct (p =? au_K) eqn:EK.
-      * apply N.eqb_eq in EK. subst p.
-        specialize (IH tr true hr (ms ++ k_msgs tr fs)).
-        destruct (fold_left (parts_step fs) parts (tr, true, hr, ms ++ k_msgs tr fs)) as [[[a b] d] e].
-        destruct IH as [-> [-> [-> ->]]]. unfold au_H, au_K. cbn. rewrite !orb_false_r. repeat split.
-        -- rewrite orb_true_r. reflexivity.
-        -- rewrite map_app, k_msgs_ids, <- app_assoc. reflexivity.
-      * destruct ((p =? 69) || (p =? 70)) eqn:EF.
-        -- specialize (IH tr ks true ms). destruct (fold_left (parts_step fs) parts (tr, ks, true, ms)) as [[[a b] d] e].
-           destruct IH as [-> [-> [-> ->]]].
-           rewrite (N.eqb_sym au_H p), EH, (N.eqb_sym au_K p), EK. cbn [orb].
-           rewrite EK. repeat split.
-           rewrite (N.eqb_sym 69 p), (N.eqb_sym 70 p).
-           apply orb_true_iff in EF as [E|E]; rewrite E; cbn [orb]; rewrite ?orb_true_r; reflexivity.
-        -- specialize (IH tr ks hr ms). destruct (fold_left (parts_step fs) parts (tr, ks, hr, ms)) as [[[a b] d] e].
-           destruct IH as [-> [-> [-> ->]]].
-           rewrite (N.eqb_sym au_H p), EH, (N.eqb_sym au_K p), EK. cbn [orb].
-           rewrite EK. apply orb_false_iff in EF as [E1 E2].
-           rewrite (N.eqb_sym 69 p), (N.eqb_sym 70 p), E1, E2. cbn [orb]. auto.
+    { apply N.eqb_eq in EH. subst p.
+      specialize (IH true ks hr ms).
+      destruct (fold_left (parts_step fs) parts (true, ks, hr, ms)) as [[[a b] d] e].
+      destruct IH as [-> [-> [-> ->]]].
+      change (au_H =? au_H) with true. change (au_K =? au_H) with false.
+      change (69 =? au_H) with false. change (70 =? au_H) with false. change (au_H =? au_K) with false.
+      cbn [orb]. rewrite !orb_true_r. auto. }
+    destruct (p =? au_K) eqn:EK.
+    { apply N.eqb_eq in EK. subst p.
+      specialize (IH tr true hr (ms ++ k_msgs tr fs)).
+      destruct (fold_left (parts_step fs) parts (tr, true, hr, ms ++ k_msgs tr fs)) as [[[a b] d] e].
+      destruct IH as [-> [-> [-> ->]]].
+      change (au_K =? au_K) with true. change (au_H =? au_K) with false.
+      change (69 =? au_K) with false. change (70 =? au_K) with false.
+      cbn [orb concat_n]. rewrite !orb_true_r, map_app, k_msgs_ids, <- app_assoc. auto. }
+    rewrite (N.eqb_sym au_H p), (N.eqb_sym au_K p), EH, EK. cbn [orb].
+    destruct ((p =? 69) || (p =? 70)) eqn:EF.
+    { specialize (IH tr ks true ms).
+      destruct (fold_left (parts_step fs) parts (tr, ks, true, ms)) as [[[a b] d] e].
+      destruct IH as [-> [-> [-> ->]]].
+      rewrite (N.eqb_sym 69 p), (N.eqb_sym 70 p). repeat split.
+      apply orb_true_iff in EF as [E|E]; rewrite E; cbn [orb]; rewrite ?orb_true_r; reflexivity. }
+    { specialize (IH tr ks hr ms).
+      destruct (fold_left (parts_step fs) parts (tr, ks, hr, ms)) as [[[a b] d] e].
+      destruct IH as [-> [-> [-> ->]]].
+      apply orb_false_iff in EF as [E1 E2].
+      rewrite (N.eqb_sym 69 p), (N.eqb_sym 70 p), E1, E2. cbn [orb]. auto. }
 Qed.
 
 Lemma au_count_pos_mem p l : au_mem p l = negb (Nat.eqb (au_count p l) 0).
@@ -759,4 +767,242 @@ Lemma record_of_tx rel c x r :
 Proof.
   unfold run_tx; cbn [o_records]. destruct (should_audit rel c (run_phases c x)); [|contradiction].
   intros [<-|[]]. unfold audit_record. destruct (audit_msgs _ _). repeat split.
+Qed.
+
+(* ------------------------------------------------------------------------------------------ *)
+(* 6. writers: whole records                                                                    *)
+(* ------------------------------------------------------------------------------------------ *)
+
+Definition nl_free (s : bytes) : bool := forallb (fun b => negb (b =? nl)) s.
+
+Lemma split_lines_line u : forall cur s,
+  nl_free u = true -> split_lines cur (u ++ nl :: s) = (rev cur ++ u) :: split_lines [] s.
+Proof.
+  induction u as [|c u IH]; intros cur s H.
+  - cbn [app split_lines]. change (nl =? nl) with true. cbn iota. rewrite app_nil_r. reflexivity.
+  - cbn [nl_free forallb] in H. apply andb_true_iff in H as [Hc Hu]. apply negb_true_iff in Hc.
+    cbn [app split_lines]. rewrite Hc. rewrite IH by exact Hu. cbn [rev]. rewrite <- app_assoc. reflexivity.
+Qed.
+
+(* a file made of framed records reads back, line by line, as exactly those records *)
+Lemma split_file_of l :
+  Forall (fun r => nl_free r = true) l -> split_lines [] (file_of l) = l.
+Proof.
+  induction 1 as [|r l Hr _ IH]; [reflexivity|].
+  unfold file_of in *. cbn [flat_map]. unfold frame at 1. rewrite <- app_assoc. cbn [app].
+  rewrite split_lines_line by exact Hr. rewrite IH. reflexivity.
+Qed.
+
+Lemma interleave_perm {A} (ls : list (list A)) out : interleave ls out -> Permutation out (concat ls).
+Proof.
+  induction 1 as [ls H | ls1 x l ls2 out _ IH].
+  - assert (E : concat ls = []).
+    { induction H as [|l ls Hl _ IH]; [reflexivity|]. cbn [concat]. rewrite Hl, IH. reflexivity. }
+    rewrite E. constructor.
+  - rewrite concat_app in *. cbn [concat] in *. cbn [app].
+    eapply Permutation_trans; [apply perm_skip; exact IH|].
+    apply Permutation_middle.
+Qed.
+
+(* each writer's own records keep their order in the file *)
+Lemma interleave_order {A} (ls : list (list A)) out :
+  interleave ls out -> forall l, In l ls -> sublist l out.
+Proof.
+  induction 1 as [ls H | ls1 x l ls2 out _ IH]; intros l0 Hin.
+  - rewrite Forall_forall in H. rewrite (H _ Hin). apply sl_nil.
+  - apply in_app_or in Hin as [Hin|[<-|Hin]].
+    + apply sl_skip. apply IH. apply in_or_app. left. exact Hin.
+    + apply sl_keep. apply IH. apply in_or_app. right. left. reflexivity.
+    + apply sl_skip. apply IH. apply in_or_app. right. right. exact Hin.
+Qed.
+
+(* G writers, any schedule of their atomic appends: the file holds a permutation of all the records,
+   whole, each on its own line *)
+Lemma whole_records (ls : list (list bytes)) out :
+  interleave ls out ->
+  Forall (fun r => nl_free r = true) (concat ls) ->
+  Permutation (split_lines [] (file_of out)) (concat ls).
+Proof.
+  intros Hi Hf. pose proof (interleave_perm _ _ Hi) as P.
+  rewrite split_file_of; [exact P|].
+  rewrite Forall_forall in *. intros r Hr. apply Hf. eapply Permutation_in; eauto.
+Qed.
+
+(* a writer that appends the record and its newline separately does NOT have the property *)
+Lemma chunked_writer_tears :
+  exists (r1 r2 : bytes) out,
+    nl_free r1 = true /\ nl_free r2 = true
+    /\ interleave [chunks_of r1; chunks_of r2] out
+    /\ ~ Permutation (split_lines [] (concat out)) [r1; r2].
+Proof.
+  exists [97], [98], [[97]; [98]; [nl]; [nl]]. repeat split.
+  - apply (il_step [] [97] [[nl]] [chunks_of [98]]). cbn [app].
+    apply (il_step [[[nl]]] [98] [[nl]] []). cbn [app].
+    apply (il_step [] [nl] [] [[[nl]]]). cbn [app].
+    apply (il_step [[]] [nl] [] []). cbn [app].
+    apply il_nil. repeat constructor.
+  - assert (E : split_lines [] (concat [[97]; [98]; [nl]; [nl]]) = [[97; 98]; []]) by reflexivity.
+    rewrite E. intros P. apply Permutation_sym in P.
+    assert (Hin : In [97] [[97; 98]; []]) by (eapply Permutation_in; [exact P | left; reflexivity]).
+    destruct Hin as [Hin|[Hin|[]]]; discriminate.
+Qed.
+
+(* ------------------------------------------------------------------------------------------ *)
+(* 7. native format                                                                             *)
+(* ------------------------------------------------------------------------------------------ *)
+
+Lemma section_A pre l : section pre l au_A = boundary pre au_A ++ a_line l.
+Proof. unfold section, section_body, au_A. cbn. rewrite app_nil_r. reflexivity. Qed.
+
+Lemma section_Z pre l : section pre l au_Z = boundary pre au_Z ++ [nl].
+Proof. reflexivity. Qed.
+
+(* rendering of well-formed parts: the A boundary and the id line first, the Z boundary last, one
+   section per part in between, in order *)
+Lemma format_native_shape pre l mid :
+  al_parts l = au_A :: mid ++ [au_Z] ->
+  format_native pre l
+  = boundary pre au_A ++ a_line l ++ flat_map (section pre l) mid ++ boundary pre au_Z ++ [nl].
+Proof.
+  intros E. unfold format_native. rewrite E. cbn [flat_map]. rewrite flat_map_app. cbn [flat_map].
+  rewrite section_A, section_Z, app_nil_r, <- !app_assoc. reflexivity.
+Qed.
+
+(* the id line carries the transaction id between the timestamp and the addresses *)
+Lemma a_line_id l :
+  a_line l = [91] ++ al_ts l ++ [93; sp] ++ al_id l ++ [sp] ++ al_cip l ++ [sp] ++ itoa (al_cport l) ++ [sp]
+             ++ al_hip l ++ [sp] ++ itoa (al_hport l) ++ [nl].
+Proof. reflexivity. Qed.
+
+(* --- reading a record back by its boundary --- *)
+
+Definition aligned (s : bytes) : Prop := s = [] \/ exists s', s = s' ++ [nl].
+
+Lemma split_app_aligned' s' : forall cur y,
+  split_lines cur ((s' ++ [nl]) ++ y) = split_lines cur (s' ++ [nl]) ++ split_lines [] y.
+Proof.
+  induction s' as [|c s' IH]; intros cur y.
+  - cbn [app split_lines]. change (nl =? nl) with true. cbn iota. reflexivity.
+  - cbn [app split_lines]. destruct (c =? nl).
+    + cbn [app]. f_equal. apply IH.
+    + apply IH.
+Qed.
+
+Lemma split_app_aligned s y : aligned s -> split_lines [] (s ++ y) = split_lines [] s ++ split_lines [] y.
+Proof. intros [->|[s' ->]]; [reflexivity | apply split_app_aligned']. Qed.
+
+Lemma aligned_app a b : aligned a -> aligned b -> aligned (a ++ b).
+Proof.
+  intros Ha [->|[b' ->]]; [rewrite app_nil_r; exact Ha|].
+  right. exists (a ++ b'). rewrite app_assoc. reflexivity.
+Qed.
+
+Lemma is_prefix_app p s : is_prefix p (p ++ s) = true.
+Proof. induction p as [|x p IH]; [destruct s; reflexivity|]. cbn [app is_prefix]. rewrite N.eqb_refl. exact IH. Qed.
+
+Lemma skipn_app_length {A} (p s : list A) : skipn (length p) (p ++ s) = s.
+Proof. induction p as [|x p IH]; [reflexivity | exact IH]. Qed.
+
+Lemma boundary_line_boundary pre p : boundary_line pre (pre ++ [p; 45; 45]) = Some p.
+Proof. unfold boundary_line. rewrite is_prefix_app, skipn_app_length. reflexivity. Qed.
+
+Definition chunk (l : alog) (p : N) : bytes := section_body l p ++ (if p =? 65 then [] else [nl]).
+
+Definition clean (pre : bytes) (s : bytes) : Prop :=
+  flat_map (fun ln => match boundary_line pre ln with Some x => [x] | None => [] end) (split_lines [] s) = [].
+
+Lemma chunk_aligned l p :
+  (forall f, al_files l = Some f -> aligned f) -> aligned (chunk l p).
+Proof.
+  intros Hf. unfold chunk. destruct (p =? 65) eqn:E.
+  - rewrite app_nil_r. unfold section_body. rewrite E. right.
+    exists ([91] ++ al_ts l ++ [93; sp] ++ al_id l ++ [sp] ++ al_cip l ++ [sp] ++ itoa (al_cport l) ++ [sp]
+            ++ al_hip l ++ [sp] ++ itoa (al_hport l)).
+    unfold a_line. rewrite <- !app_assoc. reflexivity.
+  - right. exists (section_body l p). reflexivity.
+Qed.
+
+Lemma scan_section pre l p rest :
+  nl_free pre = true -> (p =? nl) = false -> aligned (chunk l p) -> clean pre (chunk l p) ->
+  scan_lines pre (section pre l p ++ rest) = p :: scan_lines pre rest.
+Proof.
+  intros Hpre Hp Ha Hc. unfold scan_lines, section, boundary.
+  change (section_body l p ++ (if p =? 65 then [] else [nl])) with (chunk l p).
+  replace ((pre ++ [p] ++ [45; 45; nl]) ++ chunk l p) with ((pre ++ [p; 45; 45]) ++ nl :: chunk l p)
+    by (rewrite <- !app_assoc; reflexivity).
+  rewrite <- app_assoc. cbn [app].
+  rewrite split_lines_line.
+  - cbn [rev app flat_map]. rewrite boundary_line_boundary. cbn [app]. f_equal.
+    rewrite split_app_aligned by exact Ha. rewrite flat_map_app. unfold clean in Hc. rewrite Hc. reflexivity.
+  - unfold nl_free in *. rewrite forallb_app, Hpre. cbn [forallb]. rewrite Hp. reflexivity.
+Qed.
+
+(* a reader that splits the record on the record's own boundary finds exactly the parts, in order,
+   provided no content line of the record is itself a boundary line *)
+Lemma scan_format_native pre l :
+  nl_free pre = true ->
+  (forall p, In p (al_parts l) -> (p =? nl) = false) ->
+  (forall f, al_files l = Some f -> aligned f) ->
+  (forall p, In p (al_parts l) -> clean pre (chunk l p)) ->
+  scan_lines pre (format_native pre l) = al_parts l.
+Proof.
+  intros Hpre Hnl Hf Hc. unfold format_native.
+  induction (al_parts l) as [|p ps IH]; [reflexivity|].
+  cbn [flat_map]. rewrite scan_section.
+  - f_equal. apply IH; intros; [apply Hnl | apply Hc]; right; assumption.
+  - exact Hpre.
+  - apply Hnl. left. reflexivity.
+  - apply chunk_aligned. exact Hf.
+  - apply Hc. left. reflexivity.
+Qed.
+
+(* ------------------------------------------------------------------------------------------ *)
+(* 8. the record of a transaction, assembled                                                    *)
+(* ------------------------------------------------------------------------------------------ *)
+
+Lemma record_content rel c x r :
+  wf_parts (c_parts c) = true ->
+  In r (o_records (run_tx rel c x)) ->
+  let t := run_phases c x in
+  rc_id r = x_id x
+  /\ rc_parts r = t_parts t
+  /\ wf_parts (rc_parts r) = true
+  /\ (au_mem au_K (rc_parts r) = true -> map m_rule (rc_msgs r) = audit_ids_per_value (t_matched t))
+  /\ (au_mem au_K (rc_parts r) = false -> au_mem au_H (rc_parts r) = true ->
+        map m_rule (rc_msgs r) = audit_ids (t_matched t))
+  /\ (au_mem au_K (rc_parts r) = false -> au_mem au_H (rc_parts r) = false -> rc_msgs r = []).
+Proof.
+  intros Hwf Hin. destruct (record_of_tx rel c x r Hin) as [Hid [Hp Hm]].
+  cbn zeta. rewrite Hp, Hm.
+  pose proof (run_phases_wf c x Hwf) as W.
+  destruct (record_msgs (t_parts (run_phases c x)) (t_matched (run_phases c x))) as [M1 [M2 M3]].
+  pose proof (wf_parts_count _ au_K W) as Hle.
+  repeat split; try assumption.
+  - intros HK. apply M1. rewrite au_count_pos_mem in HK.
+    destruct (au_count au_K (t_parts (run_phases c x))) as [|[|n]]; [discriminate | reflexivity | lia].
+  - intros HK HH. apply M2; [|exact HH]. rewrite au_count_pos_mem in HK.
+    destruct (au_count au_K (t_parts (run_phases c x))); [reflexivity | discriminate].
+  - intros HK HH. apply M3; [|exact HH]. rewrite au_count_pos_mem in HK.
+    destruct (au_count au_K (t_parts (run_phases c x))); [reflexivity | discriminate].
+Qed.
+
+Lemma native_balanced pre l :
+  wf_parts (al_parts l) = true ->
+  exists mid,
+    al_parts l = au_A :: mid ++ [au_Z]
+    /\ format_native pre l
+       = boundary pre au_A ++ a_line l ++ flat_map (section pre l) mid ++ boundary pre au_Z ++ [nl]
+    /\ NoDup (al_parts l).
+Proof.
+  intros W. destruct (wf_parts_shape _ W) as [mid [E [Hm Hn]]].
+  exists mid. split; [exact E|]. split; [apply format_native_shape; exact E|].
+  (* no letter twice *)
+  assert (G : forall p, (au_count p (al_parts l) <= 1)%nat) by (intros p; apply wf_parts_count; exact W).
+  clear - G. induction (al_parts l) as [|x ps IH]; [constructor|].
+  constructor.
+  - intros Hi. specialize (G x). cbn [au_count] in G. rewrite N.eqb_refl in G.
+    assert (1 <= au_count x ps)%nat; [|lia].
+    clear - Hi. induction ps as [|y ps IH]; [contradiction|]. cbn [au_count].
+    destruct Hi as [->|Hi]; [rewrite N.eqb_refl; lia|]. destruct (y =? x); [lia | auto].
+  - apply IH. intros p. specialize (G p). cbn [au_count] in G. destruct (x =? p); lia.
 Qed.
